@@ -15,3 +15,4 @@ import BobModel.Props.C19
 import BobModel.Props.C06
 import BobModel.Props.C07
 import BobModel.Props.C04
+import BobModel.Props.C18
